@@ -194,17 +194,19 @@ func (c *End) Close() error {
 	return nil
 }
 
-// CloseWrite half-closes: the peer reads EOF after draining.
-func (c *End) CloseWrite() {
+// CloseWrite half-closes: the peer reads EOF after draining. (The method set is that of
+// a TCP or Unix socket, which the library may look for.)
+func (c *End) CloseWrite() error {
 	if c.real != nil {
-		return
+		return nil
 	}
 	e := ex
 	if e == nil || e.dead {
-		return
+		return nil
 	}
 	e.point(op{kind: KConnClose, st: c.wr})
 	c.wr.wclosed = true
+	return nil
 }
 
 func (c *End) LocalAddr() net.Addr                { return addr(c.name) }
